@@ -640,8 +640,12 @@ func (ev *Eval) eval(e Expr) SV {
 			for _, qv := range x.Vars {
 				names = append(names, n.vars[qv.Name].T.S)
 			}
-			if pats := barePatterns(bs, names); pats != "" {
-				bs = "(! " + bs + " :pattern (" + pats + "))"
+			if pats := barePatterns(bs, names); len(pats) > 0 {
+				bs = "(! " + bs
+				for _, p := range pats {
+					bs += " :pattern (" + p + ")"
+				}
+				bs += ")"
 			}
 		}
 		return SV{T: T{fmt.Sprintf("(%s (%s) %s)", q, strings.Join(binders, " "), bs), SBool}, Ty: boolTy}
@@ -930,21 +934,26 @@ func (c *Ctx) opaqueDef(sf *SpecFunc, at *Eval) *opaqueInfo {
 	return od
 }
 
-// barePatterns returns, for a quantifier body and its bound variables, one "(select X v)" term per variable in
-// which v is exactly the index and X mentions no bound variable - or "" if some variable has no such read.
-func barePatterns(body string, vars []string) string {
-	var out []string
+// barePatterns returns alternative triggers for a quantifier body: reads "(select X v)" in which a bound variable v
+// is exactly the index and X mentions no bound variable. With one bound variable every such read (up to eight,
+// smallest first) is an alternative pattern; with several, one multi-pattern made of the smallest read per variable.
+// nil if some variable has no such read (the solver then chooses its own triggers).
+func barePatterns(body string, vars []string) []string {
+	per := map[string][]string{}
+	// an explicit trigger written by the contract author: an application of the uninterpreted marker trig(v)
+	if len(vars) == 1 && strings.Contains(body, "(uf_trig "+vars[0]+")") {
+		return []string{"(uf_trig " + vars[0] + ")"}
+	}
 	for _, v := range vars {
-		best := ""
+		seen := map[string]bool{}
 		suffix := " " + v + ")"
 		for from := 0; ; {
 			k := strings.Index(body[from:], suffix)
 			if k < 0 {
 				break
 			}
-			end := from + k + len(suffix) // one past the closing paren of the candidate
+			end := from + k + len(suffix)
 			from = from + k + 1
-			// walk back to the matching open paren
 			depth := 0
 			start := -1
 			for i := end - 1; i >= 0; i-- {
@@ -969,14 +978,26 @@ func barePatterns(body string, vars []string) string {
 					ok = false
 				}
 			}
-			if ok && (best == "" || len(term) < len(best)) {
-				best = term
+			if ok && !seen[term] {
+				seen[term] = true
+				per[v] = append(per[v], term)
 			}
 		}
-		if best == "" {
-			return ""
+		if len(per[v]) == 0 {
+			return nil
 		}
-		out = append(out, best)
+		sort.SliceStable(per[v], func(i, j int) bool { return len(per[v][i]) < len(per[v][j]) })
 	}
-	return strings.Join(out, " ")
+	if len(vars) == 1 {
+		ps := per[vars[0]]
+		if len(ps) > 8 {
+			ps = ps[:8]
+		}
+		return ps
+	}
+	var multi []string
+	for _, v := range vars {
+		multi = append(multi, per[v][0])
+	}
+	return []string{strings.Join(multi, " ")}
 }
